@@ -39,7 +39,7 @@ PROPS = {
 
     "C01": {
         "inv": ["BaseWorkflow.__check_ready", "BaseWorkflow.__check_working", "BaseWorkflow.__check_finished",
-                "BaseTask.record_state"],
+                "BaseTask.record_state", "BaseTask.initialize"],
         "static": COMMON_STATIC,
         "level_text": "The three state-changing phases of a step are verified against two-state contracts for every workflow, "
                       "every mix of FS/SS/FF/SF links and EVERY iteration order of the internal task sets (set loops are cut at "
@@ -56,7 +56,7 @@ PROPS = {
         "inv": ["BaseWorker.has_workamount_skill", "BaseFacility.has_workamount_skill", "BaseWorker.has_facility_skill",
                 "BaseWorker.get_work_amount_skill_progress", "BaseFacility.get_work_amount_skill_progress",
                 "BaseTask.perform", "BaseWorkflow.perform", "BaseWorkflow.__check_finished",
-                "BaseTask.record_remaining_work_amount", "BaseComponent.update_error_value"],
+                "BaseTask.record_remaining_work_amount", "BaseComponent.update_error_value", "BaseTask.initialize"],
         "static": COMMON_STATIC,
         "level_text": "perform() is verified for all allocations, skills and states: remaining work of a WORKING task drops by exactly "
                       "the unit rate (automatic), the sum of present skilled workers' skills, or the sum of worker x facility products "
@@ -88,7 +88,9 @@ PROPS = {
                 "BaseWorker.record_state", "BaseWorker.record_assigned_task_id", "BaseFacility.record_state",
                 "BaseFacility.record_assigned_task_id", "BaseWorkplace.record_placed_component_id",
                 "BaseWorkflow.record", "BaseProduct.record", "BaseTeam.record_assigned_task_id", "BaseTeam.record_all_worker_state",
-                "BaseWorkplace.record_assigned_task_id", "BaseWorkplace.record_all_facility_state", "BaseComponent.initialize"],
+                "BaseWorkplace.record_assigned_task_id", "BaseWorkplace.record_all_facility_state", "BaseComponent.initialize",
+                "BaseTask.initialize", "BaseWorker.initialize", "BaseFacility.initialize", "BaseTeam.initialize",
+                "BaseWorkplace.initialize", "BaseProduct.initialize"],
         "static": COMMON_STATIC,
         "level_text": "Every record_* method is proved to append exactly one entry equal to the live attribute (with the display rule), "
                       "every aggregating record method to do so once for every member and nothing else (frames), for all models.",
@@ -99,7 +101,8 @@ PROPS = {
         "explanation": "record methods",
     },
     "C14": {
-        "inv": ["BaseComponent.check_state", "BaseComponent.initialize", "BaseProduct.check_state", "BaseComponent.record_state"],
+        "inv": ["BaseComponent.check_state", "BaseComponent.initialize", "BaseProduct.check_state", "BaseComponent.record_state",
+                "BaseProduct.initialize"],
         "static": COMMON_STATIC,
         "level_text": "check_state is proved against the exact value table of the three-stage update and against each clause of the "
                       "property (FINISHED iff all tasks FINISHED, WORKING if any WORKING, never back to NONE, never out of FINISHED "
@@ -156,5 +159,24 @@ PROPS = {
         "assumptions": ["float('inf') is an uninterpreted real constant; sum(dict.values()) is an uninterpreted function of the dict",
                         "not yet discharged: C11(b) no priority inversion inside __allocate; call-site obligations of __allocate (HSV for facilities)"],
         "explanation": "sort functions against documented keys",
+    },
+
+    "C12": {
+        "inv": ["BaseWorkflow.__set_est_eft_data", "BaseWorkflow.__set_lst_lft_criticalpath_data", "BaseWorkflow.update_PERT_data"],
+        "bounded": [{"qual": "BaseWorkflow.update_PERT_data", "bound": 2, "nrefs": 3, "nstrs": 2,
+                     "force_inline": ["BaseWorkflow.__set_est_eft_data", "BaseWorkflow.__set_lst_lft_criticalpath_data"]}],
+        "static": COMMON_STATIC,
+        "level_text": "Unbounded part: frames and safety of the two PERT passes (only est/eft/lst/lft/critical_path_length are "
+                      "written, no None dereference, max() never over an empty set). The Bellman equations of the property (est = "
+                      "max(t, max over predecessors est+rem), eft = est+rem, critical path length = largest eft of a tail, lft = "
+                      "min over successors lst / cpl for tails, lst = lft-rem, slack >= 0) are decided by the bounded stand-in: the "
+                      "real passes executed symbolically over every finish-to-start DAG with <= 3 tasks, symbolic real remaining work "
+                      "and ARBITRARY stale est/eft/lst/lft values, under every set iteration order.",
+        "level_note": "bounded(3): the wave invariants for an unbounded proof need ghost state (touched set, witness) that the contract "
+                      "language does not have yet. The equivalence Bellman equations <=> longest-chain wording is a DAG induction (not mechanised).",
+        "design_ref": "DESIGN.md section 6 C12",
+        "assumptions": ["FS-only acyclic network with a rank function, two-way consistent links, remaining work >= 0, a task without successors exists",
+                        "bounded stand-in: <= 3 tasks, <= 3 edges per task"],
+        "explanation": "PERT passes",
     },
 }
